@@ -332,13 +332,13 @@ def run(cx, out):
         c04.check_decoders(out, facts, None)
     out.rule('R04.2', 'compact decoders: accepted set = canonical forms of values of the width; no panic reachable for any first byte (delegated rule of C04)')
     # derived decoders: the derive corpus of C05
-    from . import c05 as _c05
+    from . import c05 as _c05, shared
     from ..report import Out as _Out
-    _sub = _Out('C05')
-    _c05.run(cx, _sub)
     out.rule('R05.2', 'derived decoders accept exactly the declared index bytes and read the declared representation (derive corpus of C05)')
     out.rule('R05.5', 'derived in-place decode_into reads the same representation as decode')
-    out.absorb(_sub, {'R05.2', 'R05.5'})
+    # premises: derived decoders (C05); bulk decoding skips per-element validation only for the plain primitives named
+    # by TYPE_INFO (C01 R01.3); in-place entry points perform the effects of decode (C02 R02.5, R02.2)
+    shared.premises(cx, out, {'c05': {'R05.2', 'R05.5'}, 'c01': {'R01.3'}, 'c02': {'R02.5', 'R02.2'}})
     # panic sites in the code the derive macros generate (the same corpus), and the rule families R03.3 delegates to
     from . import panics as _panics, c09 as _c09, c11 as _c11
     from .. import facts as _fm
@@ -350,13 +350,6 @@ def run(cx, out):
         out.fail('R03.3', 'derive corpus', 'corpus does not compile: %s' % str(e)[:300], '-')
     out.rule('R09.1', 'sized allocation requests on decoding paths are sanitised (rule of C09; R03.3 delegates capacity-overflow panics to it)')
     out.rule('R11.1', 'descend_ref / ascend_ref are balanced on every path (rule of C11; the audited depth counter arithmetic relies on it)')
-    for cfg in lib_cfgs(cx):
-        facts = cx.facts(cfg)
-        _sub9 = _Out('C09')
-        _c09.check_sinks(_sub9, facts)
-        out.absorb(_sub9, {'R09.1'})
-        _sub11 = _Out('C11')
-        _c11.check_all(_sub11, facts, cfg, floors=False)
-        out.absorb(_sub11, {'R11.1'})
+    shared.premises(cx, out, {'c09': {'R09.1'}, 'c11': {'R11.1'}})
     from . import positive
     positive.check(cx, out, 'C03')
